@@ -334,3 +334,43 @@ package rapid
 //@   ensures [default-body-names-the-first-fault] r0 != nil && delta(DefaultErrorBuiltFrom) == 1 && lastarg(DefaultErrorBuiltFrom, 0) == r0.ErrorType && lastarg(DefaultErrorBuiltFrom, 1) == err && lastarg(DefaultErrorBuiltFrom, 2) == invokeRequest.ID && r0.DefaultErrorResponse == lastret(DefaultErrorBuilt) && r0.DefaultErrorResponse != nil
 //@   ensures [first-fault] (has(ctxOf(execCtx.appCtx).m, appctx.AppCtxFirstFatalErrorKey) ==> iface(r0.ErrorType) == ctxOf(execCtx.appCtx).m[appctx.AppCtxFirstFatalErrorKey]) && (!has(ctxOf(execCtx.appCtx).m, appctx.AppCtxFirstFatalErrorKey) ==> r0.ErrorType == fatalerror.SandboxFailure)
 //@   ensures [reset-handling] (r0.ResetReceived <==> extEnabled() && err == errResetReceived) && (r0.RequestReset <==> extEnabled())
+
+// ---------------------------------------------------------------------------------------------
+// C18: restore
+// ---------------------------------------------------------------------------------------------
+//@ event CredentialsUpdated = call core.(CredentialsService).UpdateCredentials
+//@ event CredentialsUpdateFailed = ret core.(CredentialsService).UpdateCredentials when r0 != nil
+//@ event RuntimeParkedOnRestore = ret core.(*Runtime).GetState when r0 == a0.RuntimeRestoreReadyState
+//@ event RuntimeStateAsked = ret core.(*Runtime).GetState
+//@ event RestoreAwaited = call core.(InitFlowSynchronization).AwaitRuntimeReadyWithDeadline
+//@ event RestoreAwaitedOK = ret core.(InitFlowSynchronization).AwaitRuntimeReadyWithDeadline when r0 == nil
+//@ event EvRestoreRuntimeDone = call interop.(EventsAPI).SendRestoreRuntimeDone
+//@ event EvRestoreRuntimeDoneSuccess = call interop.(EventsAPI).SendRestoreRuntimeDone when a1.Status == telemetry.RuntimeDoneSuccess
+
+//@ func sendRestoreRuntimeDoneLogEvent
+//@   requires execCtx != nil
+//@   ensures [one-restore-done-with-status] delta(EvRestoreRuntimeDone) == 1 && delta(EvRestoreRuntimeDoneSuccess) == ite(status == telemetry.RuntimeDoneSuccess, 1, 0)
+
+//@ func handleRestore$1
+//@   requires execCtx != nil
+//@   ensures [reports-recorded-status] delta(EvRestoreRuntimeDone) == 1 && delta(EvRestoreRuntimeDoneSuccess) == ite(old(restoreStatus) == telemetry.RuntimeDoneSuccess, 1, 0) && delta(ReleaseRuntime) == 0 && delta(RestoreAwaited) == 0 && delta(CredentialsUpdated) == 0 && delta(RuntimeParkedOnRestore) == 0
+
+//@ func handleRestore
+//@   requires execCtx != nil && restore != nil
+//@   ensures [credentials-first] delta(CredentialsUpdated) == 1 && (delta(CredentialsUpdateFailed) == 1 ==> r1 == interop.ErrRestoreUpdateCredentials && delta(ReleaseRuntime) == 0 && delta(RestoreAwaited) == 0 && delta(RendererSet) == 0)
+//@   ensures [released-only-if-parked-on-the-restore-poll] delta(ReleaseRuntime) <= 1 && (delta(ReleaseRuntime) == 1 ==> delta(RuntimeParkedOnRestore) >= 1 && last(RuntimeParkedOnRestore) < first(ReleaseRuntime) && first(CredentialsUpdated) < first(ReleaseRuntime))
+//@   ensures [returns-at-once-if-never-parked] delta(CredentialsUpdateFailed) == 0 && delta(RuntimeParkedOnRestore) == 0 ==> r1 == nil && delta(ReleaseRuntime) == 0 && delta(RestoreAwaited) == 0
+//@   ensures [succeeds-only-after-the-runtime-came-back] delta(ReleaseRuntime) == 1 ==> delta(RestoreAwaited) == 1 && first(ReleaseRuntime) < first(RestoreAwaited) && (r1 == nil ==> delta(RestoreAwaitedOK) == 1 && !has(ctxOf(execCtx.appCtx).m, appctx.AppCtxFirstFatalErrorKey))
+//@   ensures [recorded-fault-overrides] delta(ReleaseRuntime) == 1 && has(ctxOf(execCtx.appCtx).m, appctx.AppCtxFirstFatalErrorKey) ==> r1 != nil
+//@   ensures [one-done-event-truthful-about-the-wait] delta(EvRestoreRuntimeDone) == 1 && (delta(ReleaseRuntime) == 1 ==> delta(EvRestoreRuntimeDoneSuccess) == ite(r1 == nil, 1, 0))
+
+// C18: snapshot mode: a random per-instance token goes into the runtime's environment together with the endpoint URI;
+// the keys themselves go to the credentials service under that token, not into the environment
+//@ event TokenDrawn = ret github.com/google/uuid.NewRandom
+//@ event EnvForInitCaching = call rapidcore/env.(*Environment).StoreEnvironmentVariablesFromInitForInitCaching
+//@ event EnvWithKeys = call rapidcore/env.(*Environment).StoreEnvironmentVariablesFromInit
+//@ event CredentialsStored = call core.(CredentialsService).SetCredentials
+//@ func (*rapidContext).acceptInitRequestForInitCaching
+//@   requires c != nil && initRequest != nil && initRequest.EnvironmentVariables != nil
+//@   ensures [token-in-env-keys-in-service] r1 == nil ==> delta(EnvForInitCaching) == 1 && delta(EnvWithKeys) == 0 && delta(CredentialsStored) == 1 && lastarg(CredentialsStored, 1) == lastarg(EnvForInitCaching, 7) && lastarg(CredentialsStored, 2) == initRequest.AwsKey && lastarg(CredentialsStored, 3) == initRequest.AwsSecret && lastarg(CredentialsStored, 4) == initRequest.AwsSession
+//@   ensures [nothing-without-a-token] r1 != nil ==> delta(EnvForInitCaching) == 0 && delta(CredentialsStored) == 0
